@@ -80,15 +80,24 @@ class SB:
         return self.n_h - 1
 
 
-def run_impl_sessions(sessions, procs=None, op_timeout=20.0):
-    """sessions: list of op lists. Returns list of observation lists (run in worker processes)."""
+def run_impl_sessions(sessions, procs=None, op_timeout=20.0, retry_timeouts=True):
+    """sessions: list of op lists. Returns list of observation lists (run in worker processes).
+    An operation that exceeds `op_timeout` under the parallel load is not evidence of anything: such a session is run
+    again alone with six times the deadline (properties about termination pass retry_timeouts=False and judge
+    deadlines themselves)."""
     if not sessions:
         return []
     procs = procs or min(16, max(1, os.cpu_count() or 1), len(sessions))
     if procs <= 1 or len(sessions) < 8:
-        return [_run_one((ops, op_timeout)) for ops in sessions]
-    with mp.get_context("fork").Pool(procs) as pool:
-        return pool.map(_run_one, [(ops, op_timeout) for ops in sessions], chunksize=max(1, len(sessions) // (procs * 4)))
+        res = [_run_one((ops, op_timeout)) for ops in sessions]
+    else:
+        with mp.get_context("fork").Pool(procs) as pool:
+            res = pool.map(_run_one, [(ops, op_timeout) for ops in sessions], chunksize=max(1, len(sessions) // (procs * 4)))
+    if retry_timeouts:
+        for k, io in enumerate(res):
+            if any(isinstance(r, dict) and r.get("err") in ("Timeout", "OpTimeout", "SkippedAfterTimeout") for r in io):
+                res[k] = _run_one((sessions[k], op_timeout * 6))
+    return res
 
 
 def _run_one(arg):
